@@ -262,9 +262,12 @@ def run_core(case, res):
                                max_rings=(4 if n_ring == 2 else 3),
                                length=0.25, lf_frac=0.0, regions_frac=0.0,
                                dd_frac=0.25, vel_range=(0.3, 5.0))
+    if rng.random() < 0.5:
+        P['setup']['param_update_tol'] = float(wl.choose(rng, [1e-3, 0.01]))
     k = int(rng.integers(1, 6))
     ang = -k * np.pi / 3
-    key = {'gap': gap, 'tdep': tdep, 'n_ring': n_ring, 'k': k}
+    key = {'gap': gap, 'tdep': tdep, 'n_ring': n_ring, 'k': k,
+           'ptol': P['setup'].get('param_update_tol', 0.0)}
     ppos = perm_from_xy(position_xy(n_ring), ang)
     with drive.scratch() as d:
         inp, r0 = drive.build(P, d, max_steps=MAX_STEPS)
